@@ -25,6 +25,7 @@ type modelEntry struct {
 	tag    string
 	topics []string
 	put    time.Duration // world clock at Put
+	str    string        // encoding of the message Put returned, at that moment
 }
 
 type replayerWorld struct {
@@ -47,6 +48,7 @@ type replayerWorld struct {
 	nextAuto    uint64
 	tagSeq      int
 	usedEmptyID bool
+	wide        bool          // large topic sets (wideTopics)
 	gcLo        time.Duration // earliest / latest instant of the latest collection, over all readings of the documentation
 	gcHi        time.Duration
 	anyPut      bool
@@ -114,14 +116,34 @@ func (w *replayerWorld) violate(prop, clause, format string, a ...any) {
 	w.o.violate(prop, clause, "%s: %s | history: %s", w.cfgString(), fmt.Sprintf(format, a...), w.history())
 }
 
+// topics draws a topic set for a Put or a Replay (large sets in "wide" runs).
+func (w *replayerWorld) topics(label string, forMessage bool) []string {
+	if w.wide {
+		return genTopicsWide(w.ch, label, forMessage)
+	}
+	return genTopics(w.ch, label)
+}
+
+// fill puts n valid messages in a row (used by the large-capacity profile).
+func (w *replayerWorld) fill(n int) {
+	for i := 0; i < n && len(w.o.Violations) == 0; i++ {
+		w.doValidPut()
+	}
+}
+
 func (w *replayerWorld) doPut() {
+	w.doPutKind(w.ch.Weighted([]int{12, 1, 1, 1}, "put kind")) // valid, no topics, wrong id presence, empty topics slice
+}
+
+func (w *replayerWorld) doValidPut() { w.doPutKind(0) }
+
+func (w *replayerWorld) doPutKind(kind int) {
 	ch := w.ch
-	kind := ch.Weighted([]int{12, 1, 1, 1}, "put kind") // valid, no topics, wrong id presence, empty topics slice
 	w.tagSeq++
 	tag := fmt.Sprintf("m%d", w.tagSeq)
 	m := &sse.Message{}
 	m.AppendData(tag)
-	topics := genTopics(ch, "put")
+	topics := w.topics("put", true)
 	idStr := ""
 	wantErr := false
 	switch kind {
@@ -208,7 +230,18 @@ func (w *replayerWorld) doPut() {
 		w.violate(prop, "put-accepts", "valid Put(%s) returned a nil message", tag)
 		return
 	}
-	e := modelEntry{msg: got, tag: tag, topics: topics, put: w.now}
+	e := modelEntry{msg: got, tag: tag, topics: topics, put: w.now, str: got.String()}
+	if w.auto && got != m && ch.Chance(1, 4, "caller reuses its message") {
+		// with automatic IDs the replayer keeps its own copy: the caller goes on using its Message
+		// (a relay loop that decodes the next event into the same value) without touching what is buffered
+		if ch.Chance(1, 2, "reuse by UnmarshalText") {
+			_ = m.UnmarshalText([]byte("data: reused by the caller\n\n"))
+		} else {
+			m.AppendData("appended by the caller")
+			m.Type = sse.Type("changed")
+		}
+		w.o.probe("caller reused its message after Put")
+	}
 	if w.auto {
 		want := strconv.FormatUint(w.nextAuto, 10)
 		if !got.ID.IsSet() || got.ID.String() != want {
@@ -308,7 +341,7 @@ func (w *replayerWorld) doReplayBiased(classWeights []int) {
 			}
 		}
 	}
-	topics := genTopics(ch, "replay")
+	topics := w.topics("replay", false)
 	sub := &simSub{ID: 1}
 	if ch.Chance(1, 5, "replay fault") {
 		if ch.Chance(1, 4, "flush fault") {
@@ -393,6 +426,10 @@ func (w *replayerWorld) doReplayBiased(classWeights []int) {
 				w.violate(prop, clause, "Replay(id=%s topics=%s) sent %s, want %s", desc, fmtTopics(topics), tagsOf(sent), entryTags(want[:wantN]))
 				return
 			}
+		}
+		if got := sent[i].String(); got != want[i].str {
+			w.violate(prop, "replay-content", "Replay(id=%s) sent %s as %q, but it was buffered as %q", desc, want[i].tag, got, want[i].str)
+			return
 		}
 	}
 	if len(want) > 0 {
@@ -528,6 +565,8 @@ func runReplayerWorld(rc *RunCtx) (out *Outcome) {
 		w.finite = ch.Chance(1, 2, "finite?")
 	}
 	w.auto = ch.Chance(1, 2, "auto ids")
+	w.wide = ch.Chance(1, 20, "large topic sets")
+	hugeFill := 0
 	defer func() {
 		if p := recover(); p != nil {
 			prop := "C08"
@@ -542,6 +581,12 @@ func runReplayerWorld(rc *RunCtx) (out *Outcome) {
 		w.n = ch.Weighted([]int{4, 4, 3, 2, 1, 1, 1}, "capacity") + 2
 		if ch.Chance(1, 12, "large capacity") {
 			w.n = []int{15, 16, 17, 33}[ch.Intn(4, "large capacity value")]
+		}
+		if ch.Chance(1, 80, "capacity in the hundreds") {
+			// a buffer that is filled more than twice over before anything else happens
+			w.n = []int{257, 300, 513, 999}[ch.Intn(4, "huge capacity value")]
+			hugeFill = 2*w.n + ch.Range(1, 40, "fill beyond twice the capacity")
+			o.probe("capacity in the hundreds, filled twice over")
 		}
 		fr, err := sse.NewFiniteReplayer(w.n, w.auto)
 		if err != nil {
@@ -590,6 +635,10 @@ func runReplayerWorld(rc *RunCtx) (out *Outcome) {
 		// shrink again, state that goes wrong silently and shows many operations later
 		num, den, maxOps = 255, 256, 400
 		o.probe("history of up to 400 operations")
+	}
+	if hugeFill > 0 {
+		w.fill(hugeFill)
+		w.checkRetention("filling the buffer twice over")
 	}
 	// swarm: per-run operation mix (balanced, put-heavy so that the buffer grows, collection-heavy)
 	profiles := [][]int{{10, 6, 2, 5, 2, 1}, {30, 4, 2, 3, 3, 1}, {10, 6, 8, 8, 4, 2}}
